@@ -13,7 +13,7 @@ import os
 import z3
 
 from .ty import (INT, BOOL, STR, TEXT, NONE, Ty, IntT, BoolT, StrT, TextT, NoneT, TupleT, ObjT, ListT, DictT, SetT,
-                 OptT, str_code)
+                 OptT, OrdDictT, MapT, str_code)
 
 DROPPED = [
     "calls on logger.* / logging.* (statement level)",
@@ -30,10 +30,10 @@ class Unsupported(Exception):
 
 
 class Val:
-    __slots__ = ("t", "ty", "path")
+    __slots__ = ("t", "ty", "meta")
 
-    def __init__(self, t, ty):
-        self.t, self.ty = t, ty
+    def __init__(self, t, ty, meta=None):
+        self.t, self.ty, self.meta = t, ty, meta
 
     def __repr__(self):
         return "Val(%s : %s)" % (self.t, self.ty)
@@ -106,7 +106,8 @@ class Contract:
     def __init__(self, file, func, params, returns=NONE, requires=(), ensures=None, loops=None, ghost=None,
                  locals=None, modifies=(), spec_funcs=None, ufuns=None, types=None, raises=None, ghost_at=None,
                  assert_at=None, lifted_asserts=(), alias_ok=(), pure=False, fragment=None, notes=None, module_env=None,
-                 decreases=None, axioms=(), trusted=False, post_hints=(), exc_ensures=None, assume_at=None, unroll=None):
+                 decreases=None, axioms=(), trusted=False, post_hints=(), exc_ensures=None, assume_at=None, unroll=None,
+                 variant="", outputs=None, call_ghost=None, defaults=None):
         self.file, self.func = file, func
         self.params = dict(params)
         self.returns = returns
@@ -135,14 +136,18 @@ class Contract:
         self.post_hints = list(post_hints)
         self.exc_ensures = dict(exc_ensures or {})
         self.unroll = dict(unroll or {})
+        self.variant = variant
+        self.outputs = list(outputs or [])
+        self.call_ghost = dict(call_ghost or {})
+        self.defaults = dict(defaults or {})
 
     @property
     def key(self):
-        return (self.file, self.func)
+        return (self.file, self.func + self.variant)
 
     @property
     def qual(self):
-        return self.file[:-3].replace("/", ".") + ":" + self.func
+        return self.file[:-3].replace("/", ".") + ":" + self.func + self.variant
 
 
 # ------------------------------------------------------------------------------------------------
@@ -305,6 +310,23 @@ class Engine:
         if isinstance(ty, TupleT) and isinstance(v.ty, TupleT) and len(ty.elts) == len(v.ty.elts):
             parts = [self.coerce(Val(v.ty.get(v.t, i), v.ty.elts[i]), ty.elts[i], st, node, what).t for i in range(len(ty.elts))]
             return Val(ty.mk(parts), ty)
+        if isinstance(ty, ListT) and isinstance(ty.elt, StrT) and isinstance(v.ty, StrT):
+            # a string used where a token/field list is declared: "" is the empty list, any other string a single token
+            e0 = ty.empty()
+            sv = z3.simplify(v.t)
+            if z3.is_int_value(sv) and sv.as_long() == str_code(""):
+                return Val(e0, ty)
+            single = ty.mk(z3.Store(ty.arr(e0), 0, v.t), z3.IntVal(1))
+            from . import lib
+            st.assume(lib.strjoin(self)(single) == v.t)  # joining a single token gives that token
+            return Val(single, ty)
+        if isinstance(ty, StrT) and isinstance(v.ty, ListT) and isinstance(v.ty.elt, StrT):
+            from . import lib
+            t_ = lib.strjoin(self)(v.t)
+            st.assume(lib.untok(self)(t_) == v.t)
+            return Val(t_, STR)
+        if isinstance(ty, ListT) and isinstance(v.ty, EmptyListT):
+            return Val(ty.empty(), ty)
         if isinstance(ty, BoolT):
             return Val(self.truthy(v), BOOL)
         raise Unsupported("cannot use %s as %s (%s) at line %s" % (v.ty, ty, what, getattr(node, "lineno", "?")))
@@ -403,6 +425,10 @@ class Engine:
             return lib.lib_format(self, n, st)
         a = self.ev(n.left, st)
         b = self.ev(n.right, st)
+        if isinstance(a.ty, OptT) and isinstance(a.ty.inner, IntT):
+            a = self.coerce(a, INT, st, n, "arithmetic operand")
+        if isinstance(b.ty, OptT) and isinstance(b.ty.inner, IntT):
+            b = self.coerce(b, INT, st, n, "arithmetic operand")
         if isinstance(a.ty, IntT) and isinstance(b.ty, IntT):
             op = n.op
             if isinstance(op, ast.Add):
@@ -423,7 +449,9 @@ class Engine:
             return Val(z3.Concat(a.t, b.t), TEXT)
         if isinstance(n.op, ast.BitOr) and isinstance(a.ty, SetT) and a.ty == b.ty:
             x = z3.FreshConst(a.ty.elt.sort(), "u")
-            return Val(z3.Lambda([x], z3.Or(z3.Select(a.t, x), z3.Select(b.t, x))), a.ty)
+            r = z3.FreshConst(a.ty.sort(), "union")
+            st.assume(z3.ForAll([x], z3.Select(r, x) == z3.Or(z3.Select(a.t, x), z3.Select(b.t, x))))
+            return Val(r, a.ty)
         raise Unsupported("binary op %s on %s, %s at line %s" % (type(n.op).__name__, a.ty, b.ty, n.lineno))
 
     @staticmethod
@@ -605,6 +633,9 @@ class Engine:
                     raise PathDead()
                 return Val(ty.get(base.t, k), ty.elts[k])
             raise Unsupported("non-constant tuple index at line %s" % n.lineno)
+        if isinstance(ty, MapT):
+            k = self.coerce(self.ev(n.slice, st), ty.k, st, n, "map key")
+            return Val(z3.Select(base.t, k.t), ty.v)
         if isinstance(ty, DictT):
             k = self.coerce(self.ev(n.slice, st), ty.k, st, n, "dict key")
             if getattr(ty, "default", None) is None:
@@ -637,14 +668,23 @@ class Engine:
         hi2 = z3.If(hi > ln, ln, hi)
         lo2 = z3.If(lo > hi2, hi2, lo)
         i = z3.FreshConst(z3.IntSort(), "sl")
-        arr = z3.Lambda([i], z3.Select(ty.arr(base.t), i + lo2))
+        arr = z3.FreshConst(z3.ArraySort(z3.IntSort(), ty.elt.sort()), "slice")
+        st.assume(z3.ForAll([i], z3.Select(arr, i) == z3.Select(ty.arr(base.t), i + lo2)))
         return Val(ty.mk(arr, hi2 - lo2), ty)
 
     def list_concat(self, a, b, st):
         ty = a.ty
-        i = z3.FreshConst(z3.IntSort(), "cc")
         la = ty.len(a.t)
-        arr = z3.Lambda([i], z3.If(i < la, z3.Select(ty.arr(a.t), i), z3.Select(ty.arr(b.t), i - la)))
+        lb = z3.simplify(ty.len(b.t))
+        if z3.is_int_value(lb) and lb.as_long() <= 64:
+            # concatenation with a list of known small length: element-wise stores (quantifier-free)
+            arr = ty.arr(a.t)
+            for k in range(lb.as_long()):
+                arr = z3.Store(arr, la + k, z3.simplify(z3.Select(ty.arr(b.t), k)))
+            return Val(ty.mk(arr, la + lb), ty)
+        arr = z3.FreshConst(z3.ArraySort(z3.IntSort(), ty.elt.sort()), "cat")
+        i = z3.FreshConst(z3.IntSort(), "cc")
+        st.assume(z3.ForAll([i], z3.Select(arr, i) == z3.If(i < la, z3.Select(ty.arr(a.t), i), z3.Select(ty.arr(b.t), i - la))))
         return Val(ty.mk(arr, la + ty.len(b.t)), ty)
 
     def ev_Lambda(self, n, st):
@@ -782,7 +822,7 @@ class Engine:
             if kw.arg in con.params:
                 argvals[kw.arg] = self.ev(kw.value, st)
                 exprs[kw.arg] = kw.value
-        defaults = getattr(con, "defaults", {})
+        defaults = con.defaults
         for name in names:
             if name not in argvals:
                 if name in defaults:
@@ -791,6 +831,19 @@ class Engine:
                     raise Unsupported("call of %s: missing argument %s at line %s" % (con.func, name, n.lineno))
         for name in names:
             argvals[name] = self.coerce(argvals[name], con.params[name], st, n, "argument " + name)
+        # ghost parameters of the callee: instantiated by the caller's contract (call_ghost), else by a same-named ghost
+        for g, gty in con.ghost.items():
+            spec = self.c.call_ghost.get(con.func, {}).get(g)
+            if spec is not None:
+                env2 = dict(st.env)
+                s2 = st.copy()
+                s2.env = dict(st.env)
+                s2.env.update(argvals)
+                argvals[g] = self.coerce(SpecEnv(self, self.c, None).ev(spec, s2), gty, st, n, "ghost " + g)
+            elif g in st.env and st.env[g].ty == gty:
+                argvals[g] = st.env[g]
+            else:
+                argvals[g] = Val(gty.fresh("ghostarg_" + g), gty)
         return argvals, exprs
 
     def call_contract(self, con, n, st, recv):
@@ -884,11 +937,14 @@ class Engine:
                 i = self.index_list(base, tgt.slice, st, node)
                 v = self.coerce(val, bty.elt, st, node, "list element")
                 return self.assign_target(tgt.value, Val(bty.mk(z3.Store(bty.arr(base.t), i, v.t), bty.len(base.t)), bty), st, node)
+            if isinstance(bty, MapT):
+                k = self.coerce(self.ev(tgt.slice, st), bty.k, st, node, "map key")
+                v = self.coerce(val, bty.v, st, node, "map value")
+                return self.assign_target(tgt.value, Val(z3.Store(base.t, k.t, v.t), bty), st, node)
             if isinstance(bty, DictT):
                 k = self.coerce(self.ev(tgt.slice, st), bty.k, st, node, "dict key")
                 v = self.coerce(val, bty.v, st, node, "dict value")
-                nd = bty.mk(z3.Store(bty.has(base.t), k.t, True), z3.Store(bty.val(base.t), k.t, v.t))
-                new = Val(nd, bty)
+                new = Val(bty.store(base.t, k.t, v.t), bty)
                 self.dict_insert_hook(tgt.value, base, new, k, st)
                 return self.assign_target(tgt.value, new, st, node)
             if isinstance(bty, ObjT) and "__getitem__" in getattr(bty, "dunder", {}):
@@ -1465,6 +1521,8 @@ class Engine:
             heads = [ast.unparse(s).split("\n")[0] for s in stmts]
             for i, h in enumerate(heads):
                 if h.startswith(start_pat):
+                    if isinstance(end_pat, int):
+                        return stmts[i:i + end_pat]
                     for j in range(i, len(heads)):
                         if heads[j].startswith(end_pat):
                             return stmts[i:j + 1]
